@@ -92,13 +92,22 @@ func NewCtx(d Driver, tier string) *Ctx {
 	c := &Ctx{ID: d.ID(), Tier: tier, Seed: seed, Workers: 12, Start: time.Now(), drv: d,
 		known: map[string]KnownFinding{}, knownHits: map[string]int64{}, knownEx: map[string]string{},
 		violSeen: map[string]int{}, Extra: map[string]any{}, Level: "model_checking"}
-	b, err := os.ReadFile(filepath.Join(VerifDir, "known_findings.json"))
-	if err == nil {
+	// known findings: /verif/known_findings.json plus /verif/known_findings.d/*.json (committed, never written at run time)
+	files := []string{filepath.Join(VerifDir, "known_findings.json")}
+	more, _ := filepath.Glob(filepath.Join(VerifDir, "known_findings.d", "*.json"))
+	sort.Strings(more)
+	files = append(files, more...)
+	for _, f := range files {
+		b, err := os.ReadFile(f)
+		if err != nil {
+			continue
+		}
 		var kf struct {
 			Findings []KnownFinding `json:"findings"`
 		}
 		if err := json.Unmarshal(b, &kf); err != nil {
-			c.Broken("known_findings.json: " + err.Error())
+			c.Broken(f + ": " + err.Error())
+			continue
 		}
 		for _, k := range kf.Findings {
 			if k.Property == c.ID && k.Status == "known" {
